@@ -1725,3 +1725,367 @@ func implCMFragUn(c Case) ImplResult {
 		ModelCheck{Line: "cmfrag spec " + args, Property: "C02"})
 	return res
 }
+
+// Stage 22 (the WIDER class of quoted contents, `gqfragB` / `guqfragB`: the documents of stages 14 / 13 NOT made clean,
+// so digits, `-`, `+`, `*` inside text lines, `***` thematic breaks and — in the union — `*x*` / `**x**` occur; no tab,
+// carriage return, `[`, no line ending in `-` or `=`): ops `gqenum <i>` / `gqgen <seed> <size>` (a stage-6 document
+// inside 1..4 quotes, `spellNQ` / `expectedNQ`; scope size `cmfrag gqcount`) and `guqenum <i>` / `guqgen <seed> <size>`
+// (a stage-13 union document inside 1..3 quotes, `quoteLinesN (k+1) (spellU d)` / `wrapQ (k+1) (expectedU d)`; scope
+// size `cmfrag guqcount`). Added behind the other stages by wrapping the registered component.
+func init() {
+	c := components["cmfrag"]
+	if c == nil {
+		return
+	}
+	gen0, impl0, scope0 := c.Gen, c.Impl, c.Scope
+	c.Rule += "; stage 22 = stage-6 documents (gq, 1..4 quotes) and stage-13 union documents (guq, 1..3 quotes) with digits, -, +, * (text, *** breaks, emphasis) inside nested block quotes, no [ / tab / CR, no line ending in - or =, compared with expectedNQ / wrapQ (k+1) (expectedU d); distinct = the depth, the key of the quoted document, quoted blank lines, which of the wider bytes occur"
+	c.Scope = func(tier string) string {
+		s := scope0(tier) + "; stage 22, all indices of nqenum and 3 x all indices of Driver.CMFrag.uqfamilies, the documents not made clean (members of gqfragB / guqfragB only)"
+		if tier == "thorough" {
+			return s + "; 2 x 40k random stage-22 documents (size 1..10)"
+		}
+		return s + "; 2 x 3k random stage-22 documents (size 1..6)"
+	}
+	c.Gen = func(tier string, rng *RNG, emit func(Case)) {
+		gen0(tier, rng, emit)
+		genCMFragAtoms(tier, rng, emit, "gq")
+		genCMFragAtoms(tier, rng, emit, "guq")
+	}
+	c.Impl = func(cs Case) ImplResult {
+		switch cs.Op {
+		case "gqgen", "gqenum", "guqgen", "guqenum":
+			return gqImplCMFrag(cs)
+		}
+		return impl0(cs)
+	}
+}
+
+// gqWide: for the source inside the quotes, which of the bytes the wider class admits occur: d a digit, `-`, `+`, `*`
+// outside thematic breaks, t a thematic break written with `*` or `-`, o a line that begins like an ordered list item
+// behind its first byte (digits then `.` or `)`), b a line that begins with `-`, `+` or `*` and a space.
+func gqWide(inner []byte) string {
+	m := map[byte]bool{}
+	for _, l := range bytes.Split(inner, []byte("\n")) {
+		t := bytes.TrimLeft(l, " ")
+		if len(t) >= 3 && (t[0] == '*' || t[0] == '-') && len(bytes.Trim(t, string(t[0])+" ")) == 0 {
+			m['t'] = true
+			continue
+		}
+		if len(t) >= 2 && (t[0] == '-' || t[0] == '+' || t[0] == '*') && t[1] == ' ' {
+			m['b'] = true
+		}
+		j := 0
+		for j < len(t) && t[j] >= '0' && t[j] <= '9' {
+			j++
+		}
+		if j > 0 && j < len(t) && (t[j] == '.' || t[j] == ')') {
+			m['o'] = true
+		}
+		for _, c := range t {
+			switch {
+			case c >= '0' && c <= '9':
+				m['d'] = true
+			case c == '-' || c == '+' || c == '*':
+				m[c] = true
+			}
+		}
+	}
+	var b []byte
+	for _, c := range []byte("d-+*tob") {
+		if m[c] {
+			b = append(b, c)
+		}
+	}
+	return string(b)
+}
+
+func gqImplCMFrag(c Case) ImplResult {
+	line := c.Line("cmfrag")
+	cmfragMu.Lock()
+	resp, ok := cmfragCache[line]
+	cmfragMu.Unlock()
+	if !ok {
+		r, err := runDriver(driverPath, []string{line})
+		if err != nil || len(r) != 1 {
+			return ImplResult{Out: "driver-unavailable", NoModel: true, Fails: []OracleFail{{Property: "C02", Clause: "assumption:generator-unavailable", Detail: fmt.Sprint(err)}}}
+		}
+		resp = r[0]
+	}
+	parts := strings.Split(resp, " ")
+	if len(parts) != 2 {
+		return ImplResult{Out: resp} // skip / end / bad-op: compared with the driver's own answer
+	}
+	src, want := unhx(parts[0]), unhx(parts[1])
+	got := cmfragConvert(src)
+	res := ImplResult{Out: hx(src) + " " + hx(got)}
+	inner, innerGot, where, depth := cmfragQuotedN(src, got)
+	if c.Op == "gqgen" || c.Op == "gqenum" {
+		res.Key = "gq" + strconv.Itoa(depth) + "|" + cmfragKey(inner, innerGot) + "|abut:" + cmfragAbuts(inner) + "|qblank:" + where +
+			"|wide:" + gqWide(inner)
+	} else {
+		res.Key = "guq" + strconv.Itoa(depth) + "|" + cmfragKey(inner, innerGot) + "|abut:" + cmfragAbuts(inner) + "|qblank:" + where +
+			"|spans:" + cmfragSpans(inner) + "|breaks:" + cmfragBreaks(inner) + "|em:" + cmfragEmph(inner) + "|u:" + cmfragUnion(inner, innerGot) +
+			"|wide:" + gqWide(inner)
+	}
+	if !bytes.Equal(got, want) {
+		res.Fails = append(res.Fails, OracleFail{Property: "C02", Clause: "fragment-document-differs",
+			Detail: fmt.Sprintf("input=%q got=%q want=%q", src, got, want)})
+	}
+	args := c.Op + " " + strings.Join(c.Args, " ")
+	res.Checks = append(res.Checks,
+		ModelCheck{Line: "cmfrag model " + args, Property: "C02"},
+		ModelCheck{Line: "cmfrag spec " + args, Property: "C02"})
+	return res
+}
+
+// ---- stage 21 (the union with all inline atoms) ----
+// Stage 21 of component `cmfrag` (`F21Doc`: the blocks of stage 13 — paragraphs, ATX headings, thematic breaks, fenced
+// and indented code blocks — whose rich lines contain every kind of inline atom of the stages: code spans, `*x*` /
+// `**x**`, `_x_` / `__x__`, links `[t](d)`, images `![t](d)`, autolinks `<s:r>`, raw tags `<n>` / `</n>`; `spellF21`,
+// `expectedF21`, `f21embed`): ops `f21enum <i>` (scope size `cmfrag f21count`) and `f21gen <seed> <size>`; without the
+// final line feed `f21eenum` / `f21egen` (`f21ecount`); and the same documents judged WITHOUT the restriction
+// `f21restrS` of the present theorem (no hard break, not both emphasis and link/image atoms in one paragraph):
+// `f21wenum` / `f21wgen` (`f21wcount`).
+func init() {
+	c := components["cmfrag"]
+	if c == nil {
+		return
+	}
+	gen0, impl0, scope0 := c.Gen, c.Impl, c.Scope
+	c.Rule += "; stage 21 = the union fragment (stage 13 with indented code) whose rich lines contain all inline atoms (code spans, * and _ emphasis, links, images, autolinks, raw tags), compared with expectedF21, with / without final line feed, with (f21, f21e) / without (f21w) the restriction f21restrS; distinct = the stage-1 key, the op family, the set of ordered pairs of neighbouring atom kinds on one line with the class of a single byte between them, the last line"
+	c.Scope = func(tier string) string {
+		s := scope0(tier) + "; stage 21, all indices of Driver.CMFrag.enumF21 (all ordered pairs of the 10 atom kinds x 8 one-character texts between x touching / spaced outer text x paragraph / heading; every kind alone; fixed documents; the uenum documents)"
+		if tier == "thorough" {
+			return s + "; 3 x 40k random stage-21 documents (size 1..10)"
+		}
+		return s + "; 3 x 3k random stage-21 documents (size 1..6)"
+	}
+	c.Gen = func(tier string, rng *RNG, emit func(Case)) {
+		gen0(tier, rng, emit)
+		genCMFragAtoms(tier, rng, emit, "f21")
+		genCMFragAtoms(tier, rng, emit, "f21e")
+		genCMFragAtoms(tier, rng, emit, "f21w")
+	}
+	c.Impl = func(cs Case) ImplResult {
+		switch cs.Op {
+		case "f21gen", "f21enum", "f21egen", "f21eenum", "f21wgen", "f21wenum":
+			return implCMFragF21(cs)
+		}
+		return impl0(cs)
+	}
+}
+
+// cmfragF21: the set of ordered pairs of neighbouring inline atoms on one line of a stage-21 source (c code span,
+// e `*x*`, s `**x**`, u `_x_`, v `__x__`, l link, i image, a autolink, o open tag, x closing tag), with the class of the
+// text between them when it is a single byte (s space, a letter/digit, p punctuation; - otherwise), and whether a line
+// ends with a backslash (hard break) behind an atom-bearing line.
+func cmfragF21(src []byte) string {
+	alnum := func(c byte) bool { return c >= 'a' && c <= 'z' || c >= 'A' && c <= 'Z' || c >= '0' && c <= '9' }
+	seen := map[string]bool{}
+	fence := byte(0)
+	for _, l := range bytes.Split(src, []byte("\n")) {
+		if fence != 0 {
+			if len(l) >= 3 && l[0] == fence && len(bytes.Trim(l, string(fence))) == 0 {
+				fence = 0
+			}
+			continue
+		}
+		if bytes.HasPrefix(l, []byte("```")) || bytes.HasPrefix(l, []byte("~~~")) {
+			fence = l[0]
+			continue
+		}
+		if bytes.HasPrefix(l, []byte("    ")) {
+			continue
+		}
+		prev, prevEnd := byte(0), -1
+		n := 0
+		for i := 0; i < len(l); i++ {
+			if l[i] == '\\' {
+				i++
+				continue
+			}
+			kind, end := byte(0), -1
+			switch {
+			case l[i] == '`':
+				if k := bytes.IndexByte(l[i+1:], '`'); k >= 0 {
+					kind, end = 'c', i+1+k
+				}
+			case l[i] == '*' || l[i] == '_':
+				j := i
+				for j < len(l) && l[j] == l[i] {
+					j++
+				}
+				if k := bytes.IndexByte(l[j:], l[i]); k > 0 {
+					end = j + k + (j - i) - 1
+					if end >= len(l) {
+						end = len(l) - 1
+					}
+					switch {
+					case l[i] == '*' && j-i == 1:
+						kind = 'e'
+					case l[i] == '*':
+						kind = 's'
+					case j-i == 1:
+						kind = 'u'
+					default:
+						kind = 'v'
+					}
+				}
+			case l[i] == '!' && i+1 < len(l) && l[i+1] == '[':
+				if k := bytes.IndexByte(l[i:], ')'); k > 0 {
+					kind, end = 'i', i+k
+				}
+			case l[i] == '[':
+				if k := bytes.IndexByte(l[i:], ')'); k > 0 {
+					kind, end = 'l', i+k
+				}
+			case l[i] == '<':
+				if k := bytes.IndexByte(l[i:], '>'); k > 0 {
+					end = i + k
+					switch {
+					case bytes.IndexByte(l[i:end], ':') > 0:
+						kind = 'a'
+					case l[i+1] == '/':
+						kind = 'x'
+					default:
+						kind = 'o'
+					}
+				}
+			}
+			if kind == 0 {
+				continue
+			}
+			n++
+			if prev != 0 {
+				between := byte('-')
+				if i-prevEnd == 2 {
+					b := l[i-1]
+					switch {
+					case b == ' ':
+						between = 's'
+					case alnum(b):
+						between = 'a'
+					default:
+						between = 'p'
+					}
+				}
+				seen[string([]byte{prev, between, kind})] = true
+			}
+			prev, prevEnd = kind, end
+			i = end
+		}
+		if n > 0 && bytes.HasSuffix(l, []byte("\\")) {
+			seen["hard"] = true
+		}
+		if n == 1 {
+			seen[string([]byte{prev})] = true
+		}
+	}
+	var out []string
+	for k := range seen {
+		out = append(out, k)
+	}
+	sort.Strings(out)
+	return strings.Join(out, ",")
+}
+
+func implCMFragF21(c Case) ImplResult {
+	line := c.Line("cmfrag")
+	cmfragMu.Lock()
+	resp, ok := cmfragCache[line]
+	cmfragMu.Unlock()
+	if !ok {
+		r, err := runDriver(driverPath, []string{line})
+		if err != nil || len(r) != 1 {
+			return ImplResult{Out: "driver-unavailable", NoModel: true, Fails: []OracleFail{{Property: "C02", Clause: "assumption:generator-unavailable", Detail: fmt.Sprint(err)}}}
+		}
+		resp = r[0]
+	}
+	parts := strings.Split(resp, " ")
+	if len(parts) != 2 {
+		return ImplResult{Out: resp} // skip / end / bad-op: compared with the driver's own answer
+	}
+	src, want := unhx(parts[0]), unhx(parts[1])
+	got := cmfragConvert(src)
+	fam := "f21|"
+	switch c.Op {
+	case "f21egen", "f21eenum":
+		fam = "f21e|"
+	case "f21wgen", "f21wenum":
+		fam = "f21w|"
+	}
+	res := ImplResult{Out: hx(src) + " " + hx(got), Key: fam + cmfragKey(src, got) + "|atoms:" + cmfragF21(src) + "|icode:" + cmfragIcode(src) + "|noeol:" + cmfragLastLine(src)}
+	if !bytes.Equal(got, want) {
+		res.Fails = append(res.Fails, OracleFail{Property: "C02", Clause: "fragment-document-differs",
+			Detail: fmt.Sprintf("input=%q got=%q want=%q", src, got, want)})
+	}
+	args := c.Op + " " + strings.Join(c.Args, " ")
+	res.Checks = append(res.Checks,
+		ModelCheck{Line: "cmfrag model " + args, Property: "C02"},
+		ModelCheck{Line: "cmfrag spec " + args, Property: "C02"})
+	return res
+}
+
+// Stage 23 (a stage-21 document — all inline atoms but links / images, which `gqcleanByte` excludes with `[` — inside
+// 1..3 nested block quotes, the wider class of stage 22, `gf21qfragB`; no indented code block): ops `gf21qenum <i>`
+// (scope size `cmfrag gf21qcount`) and `gf21qgen <seed> <size>`; `quoteLinesN (k+1) (spellF21 d)` /
+// `wrapQ (k+1) (expectedF21 d)`. Added behind the other stages by wrapping the registered component.
+func init() {
+	c := components["cmfrag"]
+	if c == nil {
+		return
+	}
+	gen0, impl0, scope0 := c.Gen, c.Impl, c.Scope
+	c.Rule += "; stage 23 = stage-21 documents (code spans, * and _ emphasis, autolinks, raw tags; links / images replaced, no indented code, no [ / tab / CR, no line ending in - or =) inside 1..3 nested block quotes, compared with wrapQ (k+1) (expectedF21 d); distinct = the depth, the key of the quoted document, quoted blank lines, the neighbouring atom kinds, which of the wider bytes occur"
+	c.Scope = func(tier string) string {
+		s := scope0(tier) + "; stage 23, 3 x all indices of f21enum, the documents made clean by Driver.CMFrag.gqF21Clean (members of gf21qfragB only)"
+		if tier == "thorough" {
+			return s + "; 40k random stage-23 documents (size 1..10)"
+		}
+		return s + "; 3k random stage-23 documents (size 1..6)"
+	}
+	c.Gen = func(tier string, rng *RNG, emit func(Case)) {
+		gen0(tier, rng, emit)
+		genCMFragAtoms(tier, rng, emit, "gf21q")
+	}
+	c.Impl = func(cs Case) ImplResult {
+		switch cs.Op {
+		case "gf21qgen", "gf21qenum":
+			return gqImplCMFragF21(cs)
+		}
+		return impl0(cs)
+	}
+}
+
+func gqImplCMFragF21(c Case) ImplResult {
+	line := c.Line("cmfrag")
+	cmfragMu.Lock()
+	resp, ok := cmfragCache[line]
+	cmfragMu.Unlock()
+	if !ok {
+		r, err := runDriver(driverPath, []string{line})
+		if err != nil || len(r) != 1 {
+			return ImplResult{Out: "driver-unavailable", NoModel: true, Fails: []OracleFail{{Property: "C02", Clause: "assumption:generator-unavailable", Detail: fmt.Sprint(err)}}}
+		}
+		resp = r[0]
+	}
+	parts := strings.Split(resp, " ")
+	if len(parts) != 2 {
+		return ImplResult{Out: resp} // skip / end / bad-op: compared with the driver's own answer
+	}
+	src, want := unhx(parts[0]), unhx(parts[1])
+	got := cmfragConvert(src)
+	res := ImplResult{Out: hx(src) + " " + hx(got)}
+	inner, innerGot, where, depth := cmfragQuotedN(src, got)
+	res.Key = "gf21q" + strconv.Itoa(depth) + "|" + cmfragKey(inner, innerGot) + "|abut:" + cmfragAbuts(inner) + "|qblank:" + where +
+		"|atoms:" + cmfragF21(inner) + "|breaks:" + cmfragBreaks(inner) + "|wide:" + gqWide(inner)
+	if !bytes.Equal(got, want) {
+		res.Fails = append(res.Fails, OracleFail{Property: "C02", Clause: "fragment-document-differs",
+			Detail: fmt.Sprintf("input=%q got=%q want=%q", src, got, want)})
+	}
+	args := c.Op + " " + strings.Join(c.Args, " ")
+	res.Checks = append(res.Checks,
+		ModelCheck{Line: "cmfrag model " + args, Property: "C02"},
+		ModelCheck{Line: "cmfrag spec " + args, Property: "C02"})
+	return res
+}
